@@ -455,6 +455,18 @@ theorem wf_cse {ss : SymSet} {x : Ind} (hw : WF ss x) (hp : x.rows ≤ PACK) :
     WF ss (cse x) ∧ ∀ l, Inside x l → unfold (cse x) l = unfold x l :=
   ⟨wf_cseStep hw (cse_refines hw hp), fun _ hl => cse_preserves_unfold hw (cse_refines hw hp) hl⟩
 
+/-- ageing does not touch the genome -/
+theorem wf_incAgeStep {ss : SymSet} {pre post : Ind} (h : WF ss pre) (hs : IncAgeStep pre post) :
+    WF ss post := by
+  obtain ⟨⟨hr, hc⟩, hb, _, _, hg⟩ := hs
+  apply wf_of_genes
+  · rw [hr]; exact h.rows_pos
+  · rw [hc]; exact h.cols_eq
+  · rw [hb, hr, hc]; exact h.best
+  · intro i hi c hc'
+    rw [hr] at hi ⊢; rw [hc] at hc' ⊢
+    rw [hg i hi c hc']; exact h.genes i hi c hc'
+
 /-! ## closure over operator histories -/
 
 /-- individuals reachable from randomly created ones by any sequence of the public genetic
@@ -472,6 +484,7 @@ inductive Reachable (ss : SymSet) (rows : Nat) : Ind → Prop
   | replace {pre post : Ind} {l : Locus} {g : Gene} :
       Reachable ss rows pre → Compatible ss pre l g → ReplaceStep pre l g post → Reachable ss rows post
   | cse {pre post : Ind} : Reachable ss rows pre → CseStep pre post → Reachable ss rows post
+  | incAge {pre post : Ind} : Reachable ss rows pre → IncAgeStep pre post → Reachable ss rows post
 
 /-- Every reachable individual is well-formed (and has the size of the problem). -/
 theorem wf_closed {ss : SymSet} (hc : 0 < ss.cats) {rows : Nat} {x : Ind}
@@ -487,6 +500,7 @@ theorem wf_closed {ss : SymSet} (hc : 0 < ss.cats) {rows : Nat} {x : Ind}
   | destroyBlock _ hs ih => exact ⟨wf_destroyStep ih.1 hs, by rw [hs.1.1]; exact ih.2⟩
   | replace _ hg hs ih => exact ⟨wf_replaceStep ih.1 hg hs, by rw [hs.1.1]; exact ih.2⟩
   | cse _ hs ih => exact ⟨wf_cseStep ih.1 hs, by rw [hs.1.1]; exact ih.2⟩
+  | incAge _ hs ih => exact ⟨wf_incAgeStep ih.1 hs, by rw [hs.1.1]; exact ih.2⟩
 
 /-- teams reachable from randomly created ones -/
 inductive TReachable (ss : SymSet) (rows : Nat) : Team → Prop
@@ -542,6 +556,7 @@ inductive ReachableF (ss : SymSet) (rows : Nat) : Ind → Prop
   | replace {x : Ind} {l : Locus} {g : Gene} : ReachableF ss rows x → Compatible ss x l g →
       ReachableF ss rows (replace x l g)
   | cse {x : Ind} : ReachableF ss rows x → ReachableF ss rows (cse x)
+  | incAge {x : Ind} : ReachableF ss rows x → ReachableF ss rows (incAge x)
 
 /-- Every history of operator functions is a history of step relations. -/
 theorem reachableF_reachable {ss : SymSet} (hv : ss.Valid) {rows : Nat} (hp : rows ≤ PACK)
@@ -562,6 +577,8 @@ theorem reachableF_reachable {ss : SymSet} (hv : ss.Valid) {rows : Nat} (hp : ro
   | cse _ ih =>
     have hw := wf_closed hv.cats_pos ih
     exact Reachable.cse ih (cse_refines hw.1 (by rw [hw.2]; exact hp))
+  | incAge _ ih =>
+    exact Reachable.incAge ih ⟨SameShape.refl _, rfl, rfl, rfl, fun _ _ _ _ => rfl⟩
 
 /-- **Closure theorem.**  Whatever the symbol set (valid), the code length (≤ 2^16, the range
     of `gene::packed_index_t`), the patch lengths, the history of operations and the values
